@@ -46,8 +46,8 @@ type shState struct {
 	phi          map[*ssa.Phi]string
 	vals         map[ssa.Value]string
 	n            *int
-	delta        int  // net change of storeList.count on this path
-	countUnknown bool // count was set to something other than count±1
+	delta        int                    // net change of storeList.count on this path
+	countUnknown bool                   // count was set to something other than count±1
 	rets         map[*ssa.Call][]string // results of calls executed inline
 }
 
